@@ -52,7 +52,14 @@ func DecodeDecrypt(
 		}
 	}
 
-	if len(ikeMsg.Payloads) > 0 && ikeMsg.Payloads[0].Type() == message.TypeSK {
+	if len(ikeMsg.Payloads) == 0 {
+		if ikeMsg.NextPayload == uint8(message.TypeSK) {
+			return nil, errors.Errorf("IKE decode decrypt: the encrypted payload announced by the header is missing")
+		}
+		return ikeMsg, nil
+	}
+
+	if ikeMsg.Payloads[0].Type() == message.TypeSK {
 		if ikesaKey == nil {
 			return nil, errors.Errorf("IKE decode decrypt: need ikesaKey to decrypt")
 		}
